@@ -148,6 +148,60 @@ def M_opt_unwrap(it, ctx, args, st):
             yield s2, Panic('called `unwrap()`/`expect()` on a `None`/`Err` value', ctx.fr.fn.name)
 
 
+def M_res_unwrap_err(it, ctx, args, st):
+    for s2, i, p in it.enum_cases(args[0], st):
+        if args[0].decl.variants[i][0] == 'Err':
+            yield s2, p.fields[0]
+        else:
+            yield s2, Panic('called `Result::unwrap_err()` / `expect_err()` on an `Ok` value', ctx.fr.fn.name)
+
+
+def M_is_some_and(it, ctx, args, st):
+    """Option::is_some_and / is_none_or, Result::is_ok_and / is_err_and"""
+    m = ctx.callee.segs[-1][0] if ctx.callee.segs else ctx.callee.method
+    hit_variant = {'is_some_and': 'Some', 'is_ok_and': 'Ok', 'is_err_and': 'Err', 'is_none_or': 'Some'}[m]
+    for s2, i, pl in it.enum_cases(args[0], st):
+        if args[0].decl.variants[i][0] == hit_variant:
+            yield from it.call_closure(args[1], [pl.fields[0]], s2, ctx.fr)
+        else:
+            yield s2, z3.BoolVal(m == 'is_none_or')
+
+
+def M_range_inclusive_new(it, ctx, args, st):
+    yield st, Agg('std::ops::RangeInclusive', (args[0], args[1], z3.BoolVal(False)))
+
+
+def M_range_contains(it, ctx, args, st):
+    """Range / RangeInclusive ::contains for integers (signedness from the element type)"""
+    r = st.deref_all(args[0]) if isinstance(args[0], Ptr) else args[0]
+    x = st.deref_all(args[1]) if isinstance(args[1], Ptr) else args[1]
+    T = ctx.targs[0] if ctx.targs else None
+    name = T[1] if T is not None and T[0] == 'path' else None
+    if name not in INT_BITS and name != 'char':
+        raise Unsupported('Range::contains on ' + ty_str(T) if T else 'Range::contains')
+    signed = name in INT_BITS and name[0] == 'i'
+    le = (lambda a, b: a <= b) if signed else z3.ULE
+    lt = (lambda a, b: a < b) if signed else z3.ULT
+    lo, hi = r.fields[0], r.fields[1]
+    incl = 'Inclusive' in r.name or 'Inclusive' in ctx.callee.key
+    yield st, z3.And(le(lo, x), le(x, hi) if incl else lt(x, hi))
+
+
+def M_u8_try_from_char(it, ctx, args, st):
+    """<u8 as TryFrom<char>>::try_from: Ok for code points <= 0xFF (not only ASCII)"""
+    c = args[0]
+    for s2, ok in fork_bool(it, st, z3.ULE(c, 0xFF)):
+        yield s2, (it.ok(z3.Extract(7, 0, c)) if ok else it.err(Agg('std::char::TryFromCharError', ())))
+
+
+def M_res_into_iter(it, ctx, args, st):
+    """Result<T, E> / Option<T> as IntoIterator: the Ok / Some payload, or nothing"""
+    v = args[0]
+    hit = 'Ok' if v.decl.name.endswith('Result') else 'Some'
+    for s2, i, pl in it.enum_cases(v, st):
+        yield s2, It('list', (pl.fields[0],) if v.decl.variants[i][0] == hit else ())
+
+
 def M_opt_is_some(it, ctx, args, st):
     yield st, deref(st, args[0]).discr == 1
 
@@ -511,6 +565,13 @@ def it_next(it, st, itv, fr):
             for s3, sub in it.call_closure(f, [item], s2, fr):
                 if is_abnormal(sub):
                     yield s3, itv, sub
+                    continue
+                if isinstance(sub, Enum) and last_seg(sub.decl.name) in ('Option', 'Result'):
+                    # the closure returns an Option / Result: it contributes its Some / Ok payload or nothing
+                    hit = 'Some' if last_seg(sub.decl.name) == 'Option' else 'Ok'
+                    for s4, i, pl in it.enum_cases(sub, s3):
+                        one = It('list', (pl.fields[0],) if sub.decl.variants[i][0] == hit else ())
+                        yield from it_next(it, s4, It(kind, inner, f, 0, one), fr)
                     continue
                 yield from it_next(it, s3, It(kind, inner, f, 0, as_iter(it, s3, sub)), fr)
     elif kind == 'chars':             # src: BStr (ASCII only within the claim; non-ASCII -> Unsupported at use)
@@ -1549,6 +1610,10 @@ MODELS = [
     (OPT + r'filter::<.*>', M_opt_filter), (OPT + r'ok_or_else::<.*>', M_opt_ok_or_else), (OPT + r'ok_or::<.*>', M_opt_ok_or),
     (OPT + r'unwrap_or', M_opt_unwrap_or), (OPT + r'unwrap_or_default', M_opt_unwrap_or_default), (OPT + r'unwrap_or_else::<.*>', M_opt_unwrap_or_else), (OPT + r'map_or::<.*>', M_opt_map_or),
     (OPT + r'(unwrap|expect)', M_opt_unwrap), (RES + r'(unwrap|expect)', M_opt_unwrap),
+    (RES + r'(unwrap_err|expect_err)', M_res_unwrap_err), (OPT + r'(is_some_and|is_none_or)::<.*>', M_is_some_and), (RES + r'(is_ok_and|is_err_and)::<.*>', M_is_some_and),
+    (P + r'ops::RangeInclusive::<.*>::new', M_range_inclusive_new), (P + r'ops::(?:range::)?Range(?:Inclusive)?::<.*>::contains::<.*>', M_range_contains),
+    (r'<u8 as ' + P + r'convert::TryFrom<char>>::try_from', M_u8_try_from_char),
+    (r'<' + P + r'(?:result::Result|option::Option)<.*> as ' + P + r'iter::IntoIterator>::into_iter', M_res_into_iter, lambda it, ctx, args, st: isinstance(args[0], Enum)),
     (OPT + r'is_some', M_opt_is_some), (OPT + r'is_none', M_opt_is_none), (OPT + r'as_ref', M_opt_as_ref),
     (OPT + r'(cloned|copied)', M_opt_cloned), (OPT + r'take', M_opt_take), (OPT + r'transpose', M_opt_transpose),
     (RES + r'map_err::<.*>', M_res_map_err), (RES + r'map::<.*>', M_res_map), (RES + r'and_then::<.*>', M_res_and_then),
